@@ -13,12 +13,19 @@ CLAIMED = {
  "C05": ("model_checking", "GET /confirm and POST /recover/end with arbitrary token strings (decoded bytes arbitrary, any length) from arbitrary stored token state: accepted iff the value decodes to exactly the issued 64 bytes of that account (and, recovery, in time); any other value leaves both accounts byte-identical; accepted tokens are spent; a re-issued recovery token supersedes the old one.", "4.5", FLOW_NOTE),
  "C06": ("model_checking", "Successful POST /recover/end from any browser session (remember loaded or not, login-after-recovery on/off) and Authboss.UpdatePassword: new password verifies, old does not, stored value is a salted hash, recovery token spent, all and only that account's remember tokens revoked, cookie deleted.", "4.6", FLOW_NOTE),
  "C07": ("model_checking", "Kernel: remember.GenerateToken + the decode/lookup of remember.Authenticate for every PID byte string within the bound (including ';' and OAuth2 PIDs). Flows: remember.Middleware from arbitrary cookie/session/table (rotation, half-auth mark, single use, bad cookie deleted), cookie issued iff asked, password reset revokes.", "4.7", FLOW_NOTE),
+ "C08": ("model_checking", "authboss.MountedMiddleware2 under all 48 configurations with a symbolic session and store outcome: the wrapped handler runs iff the session names a loadable user and every requirement holds, refusals are exactly 404 / 401 / login redirect, storage error gives 500; the login redirect carries the original (mount-joined) path and query for arbitrary short paths and queries.", "4.8", "path and query are character lists (each byte its own input) of length <= 1/2; recording redirector."),
  "C09": ("model_checking", "expire.Middleware on an arbitrary session (symbolic presence/value per key, symbolic stamp, ExpireAfter, whitelist shapes, clock) and the Setup hook.", "4.9", "RFC3339 format/parse modelled as an injective uninterpreted function on whole seconds; replay in interpreter (clock)."),
  "C10": ("model_checking", "The registered logout handler under each LogoutMethod from an arbitrary session over every library key plus application keys: only whitelisted keys survive, remember cookie removed, the auth middleware then refuses; invalid method fails Init.", "4.10", FLOW_NOTE),
  "C11": ("model_checking", "The real ClientStateResponseWriter between recording stores and a recording underlying writer, for every operation sequence up to k over 8 operations with symbolic operands (including zero-length writes) under 0-2 wrappers: exactly-once, ordered, store-separated delivery before the first underlying write; reads stable.", "4.11", "operation sequences enumerated, operands symbolic; k=3 quick / 4 thorough."),
  "C12": ("model_checking", "OTP login, recovery-code login (TOTP and SMS routes, both user types), SMS code login: the accepted value is removed from storage / session, the request is then re-executed from the same browser state and must fail; rejected values consume nothing; /otp/add never exceeds five; TOTP replay guard.", "4.12", FLOW_NOTE),
  "C13": ("model_checking", "Every route from any session: TOTP secret / SMS number / recovery codes of an account change only for the fully authenticated owner proving the factor (ground truth from ghosts and the totp_ok predicate); e-mail authorisation gates enrolment and is spent; two-request setup-then-confirm entry binds the enrolled number to the texted code; e-mail verify end grants only for the issued token.", "4.13", FLOW_NOTE),
  "C14": ("model_checking", "PID codec kernel for all provider/uid strings within the bound, plus oauth2 Start/End from arbitrary sessions with arbitrary state/code/error parameters: login only with the session's own state and no provider error, matching callbacks spend state and params, mismatches touch neither store nor session, the session names the reported (provider, uid).", "4.14", FLOW_NOTE),
+ "C15": ("model_checking", "defaults.Redirector (HTTP redirect through a validated transcription of http.Redirect, and the JSON API answer) with every redir byte string up to 5 (quick) / 7 (thorough) bytes, and the redir parameter carried through the OAuth2 round trip: the emitted Location / location is never off-site by a reference classifier after the WHATWG URL rules.", "4.15", "trusted base: the url.Parse / http.Redirect transcriptions (validated against the stdlib on 1.5M strings by go test ./stubs/) and the off-site classifier."),
+ "C16": ("model_checking", "Two-run non-interference: two worlds are built from one symbolic pre-state (same symbols), each serves one request, and the observation tuples (status, headers, page, body data, session and cookie event lists) are compared term by term: locked account correct vs wrong password; recover for existing vs unknown account; failed login for unknown vs known account (not locked, not locking). Form and JSON modes with the real defaults.Responder/Redirector.", "4.16", FLOW_NOTE),
+ "C17": ("other", "Structural exposure (symbolic-cryptography reading) of every secret the client typed or was shown, against every log line and stored field on every feasible path of every route; mailed tokens only to the account's address; the shipped error handler on the confirm link's error path; the shipped body reader's arbitrary fields on registration.", "4.17", "the literal substring statement is not decided (see DESIGN.md 4.17); hashes are one-way atoms."),
+ "C18": ("model_checking", "Every route and the remember / lock / confirm middlewares with a symbolic failure flag at every storage / hasher / responder / redirector / mailer / SMS-sender call (<= 1 quick, <= 2 thorough per request), both error-handler variants: never a panic; a failed write gives an error outcome; a session issued implies the one-time credential that justified it is spent in storage; failed requests only shrink OTP / recovery-code sets.", "4.18", FLOW_NOTE),
+ "C19": ("model_checking", "K1 tallyCharacters vs a reference classification for all ASCII strings up to the bound; K2 Rules.Errors with all thresholds symbolic accepts exactly when the reference policy does; K3 confirm-field logic; register.Post through the real defaults.HTTPBodyReader (form and JSON, with/without confirm, missing and hostile fields): nothing created on validation failure or existing pid, exactly one account otherwise with a hashed password and only whitelisted extras, logged in iff confirm is not loaded.", "4.19", "summaries (contracts) of tallyCharacters and Rules.Errors are proved by K1/K2 within their bounds and used by the callers."),
+ "C20": ("other", "Access-set analysis for data-race freedom: with no synchronisation in library code (SSA census every run; mutex critical sections modelled) a race between concurrent requests exists iff a request path writes a location that outlives the request; every route, the exported middlewares, and each shipped default component are executed symbolically and every such write by library code is reported.", "4.20", "schedules are not enumerated; user-supplied components are assumed goroutine-safe; see the explanation in the evidence file."),
 }
 checks = []
 for pid, (lvl, text, ref, note) in sorted(CLAIMED.items()):
